@@ -210,7 +210,10 @@ class CfgInterp(corevc.CoreInterp):
         self.run.assume(m.has[k])
         self.ghost['iter_key'] = k
         self.assign(s.target, (corevc.wrap(k), corevc.wrap(m.val[k])) if items else corevc.wrap(k), frame)
-        self.exec_block(s.body, frame)
+        try:
+            self.exec_block(s.body, frame)
+        except sym._Continue:
+            pass          # the generic key is skipped: no effect is logged for it, which the postcondition then refutes
         return None
 
 
